@@ -405,6 +405,11 @@ class Array(AbstractValueWithQuantityObject, Generic[ValuesType]):
             q2 = Quantity.CreateEmpty()
 
         else:
+            if len(p1.values) != len(p2.values):
+                raise ValueError(
+                    "Arrays must have the same length, but have %d and %d"
+                    % (len(p1.values), len(p2.values))
+                )
             values_iteration = _ValueGenerator(p1.values, p2.values)
             q1 = p1.GetQuantity()
             q2 = p2.GetQuantity()
